@@ -259,6 +259,7 @@ static std::vector<Case> curated() {
   { Case c; c.main = "main"; c.files["lib"] = "DEFINE TWICE <ID> AS\n$0 := $0 + 1;\n$0 := $0 + 1\nENDDEF"; c.files["main"] = "INCLUDE \"lib\"\nTWICE x0;\nTWICE x1;\nx2 := x0"; v.push_back(c); }
   v.push_back(single("PROGRAM f IN a DO\n  x1 := a;\n  STOP\nEND\nx0 := 1; x1 := RUN f WITH x0 END;\nx2 := 5\n"));
   v.push_back(single("x0 := 1;\nWHILE x0 != 0 DO\n  x1 := 2\nEND\n"));
+  v.push_back(single("PROGRAM inner IN a DO\n  x1 := a;\n  STOP\nEND\nPROGRAM mid IN a DO\n  x0 := RUN inner WITH a END\nEND\nPROGRAM outer IN a DO\n  x0 := RUN mid WITH a END\nEND\nx0 := 1;\nx1 := RUN outer WITH x0 END;\nx2 := 5\n"));
   v.push_back(single("x0 := 2;\nla: x1 := x1 + 1;\nx0 := x0 - 1;\nIF x0 = 0 THEN GOTO lb;\nGOTO la;\nlb: x2 := x1\n"));
   v.push_back(single("x0 := 1; x1 := 2; x2 := 3\n"));
   v.push_back(single("x0 := 2147483646;\nx1 := x0 + 5;\nx0 := x0 + 2147483646;\nx2 := x0 - 7\n"));
